@@ -549,3 +549,70 @@ Qed.
 
 Lemma mono_from_weaken t t' h : (t' ≤ t)%Z → mono_from t h → mono_from t' h.
 Proof. destruct h as [|[e m] h]; [done|]. intros Hle [H1 H2]. split; [lia|done]. Qed.
+
+(* ---- finalize: what an accepted claim says about the output it was made against ---- *)
+Lemma finalize_Some c e s sender b idx sq proofs from to d amt v sr bh s' r :
+  finalize c e s sender b idx sq proofs from to d amt v sr bh = Some (s', r) →
+  ∃ o x, outputs s !! (b, idx) = Some o ∧ configs s !! b = Some x ∧ is_final x e o = true ∧
+         o_root o = output_root (hash c) (hd 0%N v) sr bh.
+Proof.
+  unfold finalize. case_match; [done|].
+  destruct (resolve c to) as [rcv|]; cbn [mbind option_bind]; [|done].
+  destruct (outputs s !! (b, idx)) as [o|]; cbn [mbind option_bind]; [|done].
+  destruct (configs s !! b) as [x|]; cbn [mbind option_bind]; [|done].
+  destruct (is_final x e o) eqn:Hf; cbn [negb]; [|done].
+  case_bool_decide as Hr; cbn [negb]; [|done].
+  intros _. eauto 10.
+Qed.
+
+Lemma finalize_absent c e s sender b idx sq proofs from to d amt v sr bh :
+  outputs s !! (b, idx) = None → finalize c e s sender b idx sq proofs from to d amt v sr bh = None.
+Proof.
+  intros Hn. destruct (finalize _ _ _ _ _ _ _ _ _ _ _ _ _ _ _) as [[s' r]|] eqn:E; [|done].
+  apply finalize_Some in E as (o & x & Ho & _). congruence.
+Qed.
+
+(* ---- finality: monotone in the block time, depends on the config only through the period ---- *)
+Lemma is_final_period x x' e o : c_period x' = c_period x → is_final x' e o = is_final x e o.
+Proof. unfold is_final. by intros ->. Qed.
+Lemma is_final_mono x e e' o : (now e ≤ now e')%Z → is_final x e o = true → is_final x e' o = true.
+Proof.
+  unfold is_final, second. intros Hle Hf. apply Z.leb_le in Hf. apply Z.leb_le.
+  etrans; [exact Hf|]. apply Z.div_le_mono; lia.
+Qed.
+Lemma is_final_time x e o o' : (o_time o ≤ o_time o')%Z → is_final x e o' = true → is_final x e o = true.
+Proof.
+  unfold is_final, second. intros Hle Hf. apply Z.leb_le in Hf. apply Z.leb_le.
+  etrans; [|exact Hf]. apply Z.div_le_mono; lia.
+Qed.
+
+(* ---- cfg_ok along arbitrary histories (no assumption on times) ---- *)
+Lemma step_cfg_ok c e s m : cfg_ok s → cfg_ok (step c e s m).1.
+Proof.
+  intros Hok. destruct (step c e s m) as [s' [r|]] eqn:E; cbn.
+  - apply step_Ok in E. by eapply handle_cfg_ok.
+  - by apply step_Err in E as [_ ->].
+Qed.
+Lemma run_cfg_ok c h s : cfg_ok s → cfg_ok (run c s h).1.
+Proof.
+  revert s. induction h as [|[e m] h IH]; intros s Hok; [done|].
+  rewrite run_cons. cbn [fst]. by apply IH, step_cfg_ok.
+Qed.
+Lemma step_period c e s m b x :
+  cfg_ok s → configs s !! b = Some x →
+  ∃ x', configs (step c e s m).1 !! b = Some x' ∧ c_period x' = c_period x.
+Proof.
+  intros Hok Hx. destruct (step c e s m) as [s' [r|]] eqn:E; cbn.
+  - apply step_Ok in E. by eapply handle_period.
+  - apply step_Err in E as [_ ->]. eauto.
+Qed.
+Lemma run_period c h s b x :
+  cfg_ok s → configs s !! b = Some x →
+  ∃ x', configs (run c s h).1 !! b = Some x' ∧ c_period x' = c_period x.
+Proof.
+  revert s x. induction h as [|[e m] h IH]; intros s x Hok Hx; [eauto|].
+  rewrite run_cons. cbn [fst].
+  destruct (step_period c e s m b x Hok Hx) as (x1 & Hx1 & Hp1).
+  destruct (IH _ x1 (step_cfg_ok c e s m Hok) Hx1) as (x2 & Hx2 & Hp2).
+  exists x2. split; [done|]. congruence.
+Qed.
